@@ -38,10 +38,24 @@ struct Case {
     cmd: mpd_client::protocol::Command,
     name: &'static str,
     args: Vec<A>,
+    /// another request the protocol reference documents as meaning the same
+    alt_args: Option<Vec<A>>,
 }
 
 fn case(what: impl Into<String>, cmd: impl Command, name: &'static str, args: Vec<A>) -> Case {
-    Case { what: what.into(), cmd: cmd.command(), name, args }
+    Case { what: what.into(), cmd: cmd.command(), name, args, alt_args: None }
+}
+
+/// a case with two documented spellings (e.g. an optional argument whose default is the value)
+fn case2(what: impl Into<String>, cmd: impl Command, name: &'static str, args: Vec<A>, alt: Vec<A>) -> Case {
+    Case { what: what.into(), cmd: cmd.command(), name, args, alt_args: Some(alt) }
+}
+
+/// the filter argument exactly as a fresh `find` renders it (its meaning is C11's business)
+fn filter_arg(f: &Filter) -> A {
+    let w = wire_of_command(c::Find::new(f.clone()).command());
+    let req = tokenize(&w[..w.len() - 1]).expect("find with a plain filter tokenizes");
+    A::S(String::from_utf8(req.args[0].clone()).expect("filter is UTF-8"))
 }
 
 fn s(x: &str) -> A {
@@ -65,6 +79,12 @@ fn durations() -> Vec<Duration> {
         Duration::from_millis(2345),
         Duration::new(59, 999_500_000),
         Duration::from_secs(1 << 31),
+        // long positions: beyond f32's millisecond resolution (16384 s) and integer range (2^24 s)
+        Duration::from_millis(16_384_001),
+        Duration::from_millis(18_000_001),
+        Duration::from_millis(100_000_123),
+        Duration::from_millis(16_777_217_000),
+        Duration::from_millis(4_000_000_007),
     ]
 }
 
@@ -105,7 +125,8 @@ fn all_cases() -> Vec<Case> {
     v.push(case("ListChannels", c::ListChannels, "channels", vec![]));
     v.push(case("Shuffle::all", c::Shuffle::all(), "shuffle", vec![]));
     v.push(case("Play::current", c::Play::current(), "play", vec![]));
-    v.push(case("ListAllIn::root", c::ListAllIn::root(), "listallinfo", vec![]));
+    // (`listallinfo [URI]`: the omitted URI and the empty URI both name the library root)
+    v.push(case2("ListAllIn::root", c::ListAllIn::root(), "listallinfo", vec![], vec![s("")]));
     v.push(case("Update::new", c::Update::new(), "update", vec![]));
     v.push(case("Rescan::new", c::Rescan::new(), "rescan", vec![]));
     v.push(case("Update::default", c::Update::default(), "update", vec![]));
@@ -120,7 +141,11 @@ fn all_cases() -> Vec<Case> {
         v.push(case(format!("UnsubscribeFromChannel({x:?})"), c::UnsubscribeFromChannel(x), "unsubscribe", vec![s(x)]));
         v.push(case(format!("GetPlaylist({x:?})"), c::GetPlaylist(x), "listplaylistinfo", vec![s(x)]));
         // (the empty directory is the library root: `listallinfo` without an argument, by design)
-        v.push(case(format!("ListAllIn::directory({x:?})"), c::ListAllIn::directory(x), "listallinfo", if x.is_empty() { vec![] } else { vec![s(x)] }));
+        if x.is_empty() {
+            v.push(case2("ListAllIn::directory(\"\")", c::ListAllIn::directory(x), "listallinfo", vec![], vec![s("")]));
+        } else {
+            v.push(case(format!("ListAllIn::directory({x:?})"), c::ListAllIn::directory(x), "listallinfo", vec![s(x)]));
+        }
         v.push(case(format!("Update::uri({x:?})"), c::Update::new().uri(x), "update", vec![s(x)]));
         v.push(case(format!("Rescan::uri({x:?})"), c::Rescan::new().uri(x), "rescan", vec![s(x)]));
         v.push(case(format!("Add::uri({x:?})"), c::Add::uri(x), "addid", vec![s(x)]));
@@ -248,10 +273,82 @@ fn all_cases() -> Vec<Case> {
         v.push(case(format!("CountGrouped::new({n}).filter"), c::CountGrouped::new(t.clone()).filter(filter.clone()), "count", vec![A::Filter, s("group"), s(n)]));
     }
     v.push(case("Count::new", c::Count::new(filter.clone()), "count", vec![A::Filter]));
+    v.extend(builder_histories());
     let tags = [Tag::Album, Tag::Title, Tag::MusicBrainzWorkId];
     v.push(case("TagTypes::disable", c::TagTypes::disable(&tags), "tagtypes", vec![s("disable"), s("Album"), s("Title"), s("MUSICBRAINZ_WORKID")]));
     v.push(case("TagTypes::enable", c::TagTypes::enable(&tags), "tagtypes", vec![s("enable"), s("Album"), s("Title"), s("MUSICBRAINZ_WORKID")]));
     v.push(case("TagTypes::enable(1)", c::TagTypes::enable(&tags[..1]), "tagtypes", vec![s("enable"), s("Album")]));
+    v
+}
+
+/// Builder values are values: what a builder renders depends on the parameters it holds now, not on
+/// how it got there. Every overwriting setter is called twice with different values (the last one
+/// counts), and builders are rendered, modified (directly and through a clone) and rendered again.
+fn builder_histories() -> Vec<Case> {
+    let mut v: Vec<Case> = Vec::new();
+    let f1 = Filter::tag(Tag::Artist, "x");
+    let f2 = Filter::tag(Tag::Album, "y z");
+    let (a1, a2) = (filter_arg(&f1), filter_arg(&f2));
+    let r = |a: usize, b: usize| A::R(Bound::Included(a), Bound::Excluded(b));
+    // List / CountGrouped: filter overwritten
+    v.push(case("List.filter(f1).filter(f2)", c::List::new(Tag::Album).filter(f1.clone()).filter(f2.clone()), "list", vec![s("Album"), a2.clone()]));
+    {
+        let base = c::List::new(Tag::Album).filter(f1.clone());
+        let _ = base.command();
+        v.push(case("List.filter(f1) rendered, clone.filter(f2)", base.clone().filter(f2.clone()), "list", vec![s("Album"), a2.clone()]));
+        v.push(case("List.filter(f1) rendered, .filter(f2)", base.filter(f2.clone()), "list", vec![s("Album"), a2.clone()]));
+    }
+    v.push(case("List.filter(f1).group_by.filter?", c::List::new(Tag::Title).filter(f1.clone()).filter(f2.clone()).group_by([Tag::Album]), "list", vec![s("Title"), a2.clone(), s("group"), s("Album")]));
+    v.push(case("CountGrouped.filter(f1).filter(f2)", c::CountGrouped::new(Tag::Artist).filter(f1.clone()).filter(f2.clone()), "count", vec![a2.clone(), s("group"), s("Artist")]));
+    v.push(case("Count::new(f1).group_by.filter(f2)", c::Count::new(f1.clone()).group_by(Tag::Artist).filter(f2.clone()), "count", vec![a2.clone(), s("group"), s("Artist")]));
+    {
+        let base = c::Count::new(f1.clone()).group_by(Tag::Artist);
+        let _ = base.command();
+        v.push(case("Count.group_by rendered, .filter(f2)", base.filter(f2.clone()), "count", vec![a2.clone(), s("group"), s("Artist")]));
+    }
+    // Find: window and sort overwritten, before and after a rendering
+    v.push(case("Find.window(0..50).window(50..100)", c::Find::new(f1.clone()).window(0..50).window(50..100), "find", vec![a1.clone(), s("window"), r(50, 100)]));
+    v.push(case("Find.sort(Artist).sort(Album)", c::Find::new(f1.clone()).sort(Tag::Artist).sort(Tag::Album), "find", vec![a1.clone(), s("sort"), s("Album")]));
+    {
+        let base = c::Find::new(f1.clone()).window(0..50);
+        let _ = base.command();
+        v.push(case("Find.window(0..50) rendered, clone.window(50..100)", base.clone().window(50..100), "find", vec![a1.clone(), s("window"), r(50, 100)]));
+        v.push(case("Find.window(0..50) rendered, clone.sort(Album)", base.clone().sort(Tag::Album), "find", vec![a1.clone(), s("sort"), s("Album"), s("window"), r(0, 50)]));
+        v.push(case("Find.window(0..50) rendered, .window(50..100)", base.window(50..100), "find", vec![a1.clone(), s("window"), r(50, 100)]));
+        let base = c::Find::new(f1.clone());
+        let _ = base.command();
+        v.push(case("Find rendered, .window(7..9)", base.clone().window(7..9), "find", vec![a1.clone(), s("window"), r(7, 9)]));
+        v.push(case("Find rendered, .sort(Title)", base.sort(Tag::Title), "find", vec![a1.clone(), s("sort"), s("Title")]));
+        let base = c::Find::new(f1.clone()).sort(Tag::Artist);
+        let _ = base.command();
+        v.push(case("Find.sort(Artist) rendered, .sort(Album).window(1..2)", base.sort(Tag::Album).window(1..2), "find", vec![a1.clone(), s("sort"), s("Album"), s("window"), r(1, 2)]));
+    }
+    // positions overwritten
+    v.push(case("Add.at(1).at(2)", c::Add::uri("u").at(1).at(2), "addid", vec![s("u"), A::N(2)]));
+    v.push(case("Add.at(1).before_current(3)", c::Add::uri("u").at(1).before_current(3), "addid", vec![s("u"), s("-3")]));
+    v.push(case("Add.after_current(1).at(4)", c::Add::uri("u").after_current(1).at(4), "addid", vec![s("u"), A::N(4)]));
+    {
+        let base = c::Add::uri("u").at(1);
+        let _ = base.command();
+        v.push(case("Add.at(1) rendered, .after_current(2)", base.after_current(2), "addid", vec![s("u"), s("+2")]));
+    }
+    v.push(case("AddToPlaylist.at(1).at(2)", c::AddToPlaylist::new("p", "u").at(1).at(2), "playlistadd", vec![s("p"), s("u"), A::N(2)]));
+    v.push(case("LoadPlaylist.range(0..1).range(2..3)", c::LoadPlaylist::name("p").range(0..1).range(2..3), "load", vec![s("p"), r(2, 3)]));
+    {
+        let base = c::LoadPlaylist::name("p").range(0..1);
+        let _ = base.command();
+        v.push(case("LoadPlaylist.range(0..1) rendered, .range(2..3)", base.range(2..3), "load", vec![s("p"), r(2, 3)]));
+    }
+    v.push(case("AlbumArt.offset(1).offset(2)", c::AlbumArt::new("u").offset(1).offset(2), "albumart", vec![s("u"), A::N(2)]));
+    v.push(case("AlbumArtEmbedded.offset(1).offset(2)", c::AlbumArtEmbedded::new("u").offset(1).offset(2), "readpicture", vec![s("u"), A::N(2)]));
+    {
+        let base = c::AlbumArtEmbedded::new("u").offset(8192);
+        let _ = base.command();
+        v.push(case("AlbumArtEmbedded.offset(8192) rendered, .offset(16384)", base.offset(16384), "readpicture", vec![s("u"), A::N(16384)]));
+    }
+    v.push(case("StickerFind.where_eq(a).where_gt(b)", c::StickerFind::new("u", "n").where_eq("a").where_gt("b"), "sticker", vec![s("find"), s("song"), s("u"), s("n"), s(">"), s("b")]));
+    v.push(case("Update.uri(a).uri(b)", c::Update::new().uri("a").uri("b"), "update", vec![s("b")]));
+    v.push(case("Rescan.uri(a).uri(b)", c::Rescan::new().uri("a").uri("b"), "rescan", vec![s("b")]));
     v
 }
 
@@ -295,7 +392,11 @@ fn parse_mpd_range(a: &[u8]) -> Option<(u128, u128)> {
     Some((lo.min(max), hi.min(max)))
 }
 
-fn check_arg(exp: &A, got: &[u8]) -> Result<(), String> {
+/// commands whose position argument the protocol reference gives as `POS | START:END`: a bare
+/// number denotes that one position
+const POS_OR_RANGE: &[&str] = &["delete", "move", "playlistinfo", "playlistdelete"];
+
+fn check_arg(exp: &A, got: &[u8], bare_position_ok: bool) -> Result<(), String> {
     match exp {
         A::S(s) => {
             if got == s.as_bytes() {
@@ -342,7 +443,12 @@ fn check_arg(exp: &A, got: &[u8]) -> Result<(), String> {
             }
         }
         A::R(st, en) => {
-            let Some((lo, hi)) = parse_mpd_range(got) else { return Err(format!("not a START:END range: <{}>", show_bytes(got))) };
+            let bare = if bare_position_ok && !got.is_empty() && got.iter().all(|b| b.is_ascii_digit()) {
+                std::str::from_utf8(got).ok().and_then(|t| t.parse::<u64>().ok()).map(|n| ((n as u128).min(usize::MAX as u128), (n as u128 + 1).min(usize::MAX as u128)))
+            } else {
+                None
+            };
+            let Some((lo, hi)) = bare.or_else(|| parse_mpd_range(got)) else { return Err(format!("not a START:END range: <{}>", show_bytes(got))) };
             let (rlo, rhi) = rust_interval(*st, *en);
             let empty_r = rlo >= rhi;
             let empty_m = lo >= hi;
@@ -374,13 +480,20 @@ fn check_case(cs: &Case, verbose: bool) -> Result<(), String> {
     if req.name != cs.name.as_bytes() {
         return Err(format!("command word <{}> instead of <{}>", show_bytes(&req.name), cs.name));
     }
-    if req.args.len() != cs.args.len() {
-        return Err(format!("{} arguments instead of {} in {:?}", req.args.len(), cs.args.len(), show_bytes(&w)));
+    let against = |args: &[A]| -> Result<(), String> {
+        if req.args.len() != args.len() {
+            return Err(format!("{} arguments instead of {} in {:?}", req.args.len(), args.len(), show_bytes(&w)));
+        }
+        for (i, (e, g)) in args.iter().zip(&req.args).enumerate() {
+            check_arg(e, g, POS_OR_RANGE.contains(&cs.name)).map_err(|m| format!("argument {i} of {:?}: {m}", show_bytes(&w)))?;
+        }
+        Ok(())
+    };
+    match (against(&cs.args), &cs.alt_args) {
+        (Ok(()), _) => Ok(()),
+        (Err(e), Some(alt)) => against(alt).map_err(|_| e),
+        (Err(e), None) => Err(e),
     }
-    for (i, (e, g)) in cs.args.iter().zip(&req.args).enumerate() {
-        check_arg(e, g).map_err(|m| format!("argument {i} of {:?}: {m}", show_bytes(&w)))?;
-    }
-    Ok(())
 }
 
 pub fn run(tier: Tier) -> i32 {
@@ -405,7 +518,7 @@ pub fn run(tier: Tier) -> i32 {
     let mut cov = Coverage::default();
     cov.evaluations = cases.len() as u64;
     cov.distinct_nontrivial = nontrivial;
-    cov.rule = "every constructor / builder path of every predefined command x boundary values: integers {0,1,2,MAX-1,MAX}, every pair of range bounds from {unbounded, included, excluded} x {0,1,5,MAX-1,MAX} (incl. empty and inverted), 9 durations around the millisecond rounding points, all enum variants, every string parameter over 8 strings (plain, blanks, leading blank, double quotes, backslash, empty, tab, non-ASCII), volumes 0..=255; non-trivial = cases with at least one argument".to_string();
+    cov.rule = "every constructor / builder path of every predefined command x boundary values: integers {0,1,2,MAX-1,MAX}, every pair of range bounds from {unbounded, included, excluded} x {0,1,5,MAX-1,MAX} (incl. empty and inverted), 14 durations around the millisecond rounding points and beyond f32's resolution, every overwriting builder setter called twice and builders rendered / modified / rendered again (last value wins, no memory of earlier renderings), all enum variants, every string parameter over 8 strings (plain, blanks, leading blank, double quotes, backslash, empty, tab, non-ASCII), volumes 0..=255; non-trivial = cases with at least one argument".to_string();
     cov.states = cases.len() as u64;
     cov.transitions = cases.iter().map(|c| c.args.len() as u64 + 1).sum();
     cov.traces = cases.len() as u64;
